@@ -623,11 +623,26 @@ def rule_commit(facts):
         for (gb, t, z, nz) in gs:
             if pat.has_call(t, "PartialEq::eq") and pat.has_arg(t, "mode") and c.dominates(nz, tr.idx) and len(c.pred[nz]) == 1:
                 modesw = (gb, nz, t)
+        by_walk = False
+        if modesw is None and lt is not None:
+            # another spelling of the mode test (`matches!(mode, Partial)`, a `match`): the dry run is not reached in a concrete walk of
+            # the round with the mode set to a non-Partial variant (C13.mode_guarded), and the test is the switch on mode's discriminant
+            from rules import C13 as _c13
+            if _c13.mode_guarded(facts, p, Terms(p), c, tr.idx):
+                tmx = Terms(p)
+                for blkx in p.blocks:
+                    if blkx.cleanup or blkx.term.k != "switch":
+                        continue
+                    tx = tmx.of_operand(blkx.term.discr)
+                    if isinstance(tx, tuple) and tx and tx[0] == "discr" and pat.has_arg(tx, "mode") and not pat.has_call(tx, "") and \
+                            c.dominates(blkx.idx, tr.idx):
+                        modesw = (blkx.idx, None, None)
+                        by_walk = True
         if lt is None or modesw is None:
             r.bad("commit|guards", "the dry run is not guarded by `mode == Partial && available < T`", pat.where(p, tr.idx), "unverifiable")
             continue
         # mode constant is Partial
-        pv = pat.promoted_variants(facts, modesw[2]) if hasattr(pat, "promoted_variants") else None
+        pv = None if by_walk else (pat.promoted_variants(facts, modesw[2]) if hasattr(pat, "promoted_variants") else None)
         if pv is not None and "Partial" not in str(pv):
             r.bad("commit|mode", "the dry run is taken in mode %s, not in Partial mode" % pv, pat.where(p, modesw[0]))
             continue
